@@ -61,6 +61,7 @@ SCHEMES = {
     # not stable under Unicode normalisation, with siblings that sort between the decomposed and the composed spelling
     "decomposed": {"a": "e\u0301tude.bin", "b": "fugue.bin", "d": "cafe\u0301", "c": "\u212b.dat", "e": "z", "z": "\ufb01n"},
     "tilde": {"a": "~", "b": "~root", "d": "~", "c": "~x", "z": "~~"},
+    "dotdot": {"a": "notes..txt", "b": "..b", "d": "part1..3", "c": "c..", "e": "...", "z": "z.."},      # legal names containing '..'
 }
 
 
